@@ -117,7 +117,31 @@ func c13MarkAt(marks []typegen.Mark, off int) *typegen.Mark {
 
 const c13AllocCap = 1 << 22 // counts are kept below this many elements*size (C14 owns the rest)
 
+// c13Mutate applies the drawn kind, or — when the value has no site for it — the
+// next kind of the list that has one (flip always applies).
 func c13Mutate(in c13Input, cdc *cdcCodec, enc []byte, marks []typegen.Mark, prefixFree bool) ([]byte, c13Applied) {
+	start := 0
+	for i, k := range c13Kinds {
+		if k == in.Mut.Kind {
+			start = i
+			break
+		}
+	}
+	for d := 0; d < len(c13Kinds); d++ {
+		in.Mut.Kind = c13Kinds[(start+d)%len(c13Kinds)]
+		if in.Mut.Kind == "flip" && d > 0 && d < len(c13Kinds)-1 && marks != nil {
+			continue // prefer a structured kind while searching
+		}
+		if s, ap, ok := c13Mutate1(in, cdc, enc, marks, prefixFree); ok {
+			return s, ap
+		}
+	}
+	in.Mut.Kind = "flip"
+	s, ap, _ := c13Mutate1(in, cdc, enc, marks, prefixFree)
+	return s, ap
+}
+
+func c13Mutate1(in c13Input, cdc *cdcCodec, enc []byte, marks []typegen.Mark, prefixFree bool) ([]byte, c13Applied, bool) {
 	mu := in.Mut
 	pick := func(ms []*typegen.Mark) *typegen.Mark { return ms[int(mu.Sel%uint64(len(ms)))] }
 	flip := func(kind string) ([]byte, c13Applied) {
@@ -138,14 +162,14 @@ func c13Mutate(in c13Input, cdc *cdcCodec, enc []byte, marks []typegen.Mark, pre
 		}
 		m := pick(fs)
 		return append([]byte{}, enc[:m.Off]...), c13Applied{Kind: "trunc", Off: m.Off, Mark: c13MarkAt(marks, m.Off), MustReject: prefixFree,
-			What: fmt.Sprintf("cut before field %s (keep %d of %d bytes)", m.Path, m.Off, len(enc))}
+			What: fmt.Sprintf("cut before field %s (keep %d of %d bytes)", m.Path, m.Off, len(enc))}, true
 	case "trunc_any":
 		if len(enc) == 0 {
 			break
 		}
 		off := int(mu.Sel % uint64(len(enc)))
 		return append([]byte{}, enc[:off]...), c13Applied{Kind: "trunc", Off: off, Mark: c13MarkAt(marks, off), MustReject: prefixFree,
-			What: fmt.Sprintf("keep %d of %d bytes", off, len(enc))}
+			What: fmt.Sprintf("keep %d of %d bytes", off, len(enc))}, true
 	case "disc":
 		ds := c13Marks(marks, func(m *typegen.Mark) bool {
 			return m.Kind == typegen.MarkOpt || m.Kind == typegen.MarkBool || m.Kind == typegen.MarkTag
@@ -173,7 +197,7 @@ func c13Mutate(in c13Input, cdc *cdcCodec, enc []byte, marks []typegen.Mark, pre
 		out := append([]byte{}, enc...)
 		out[m.Off] = nv
 		return out, c13Applied{Kind: "disc", Off: m.Off, Mark: m, MustReject: true, NewVal: uint64(nv),
-			What: fmt.Sprintf("%s %s at %d: %02x -> %02x", m.Kind, m.Path, m.Off, enc[m.Off], nv)}
+			What: fmt.Sprintf("%s %s at %d: %02x -> %02x", m.Kind, m.Path, m.Off, enc[m.Off], nv)}, true
 	case "len_pm":
 		ls := c13Marks(marks, func(m *typegen.Mark) bool { return m.Kind == typegen.MarkLen })
 		if len(ls) == 0 {
@@ -193,7 +217,7 @@ func c13Mutate(in c13Input, cdc *cdcCodec, enc []byte, marks []typegen.Mark, pre
 			nv = m.Val + 1
 		}
 		return c13Splice(enc, m.Off, m.Len, typegen.Compact(nv)), c13Applied{Kind: "len_pm", Off: m.Off, Mark: m, NewVal: nv,
-			What: fmt.Sprintf("length prefix %s at %d: %d -> %d", m.Path, m.Off, m.Val, nv)}
+			What: fmt.Sprintf("length prefix %s at %d: %d -> %d", m.Path, m.Off, m.Val, nv)}, true
 	case "nonmin":
 		ls := c13Marks(marks, func(m *typegen.Mark) bool { return m.Kind == typegen.MarkLen || m.Kind == typegen.MarkCInt })
 		if len(ls) == 0 {
@@ -206,7 +230,7 @@ func c13Mutate(in c13Input, cdc *cdcCodec, enc []byte, marks []typegen.Mark, pre
 		}
 		f := forms[int(mu.Val%uint64(len(forms)))]
 		return c13Splice(enc, m.Off, m.Len, f), c13Applied{Kind: "nonmin", Off: m.Off, Mark: m, MustReject: true, NewVal: uint64(len(f)),
-			What: fmt.Sprintf("%s %s = %d re-encoded non-minimally as %x", m.Kind, m.Path, m.Val, f)}
+			What: fmt.Sprintf("%s %s = %d re-encoded non-minimally as %x", m.Kind, m.Path, m.Val, f)}, true
 	case "cint_wide":
 		cs := c13Marks(marks, func(m *typegen.Mark) bool { return m.Kind == typegen.MarkCInt && m.MaxBits > 0 && m.MaxBits < 64 })
 		if len(cs) == 0 {
@@ -215,14 +239,14 @@ func c13Mutate(in c13Input, cdc *cdcCodec, enc []byte, marks []typegen.Mark, pre
 		m := pick(cs)
 		nv := m.Val + uint64(1)<<uint(m.MaxBits)*(1+mu.Val%3)
 		return c13Splice(enc, m.Off, m.Len, typegen.Compact(nv)), c13Applied{Kind: "cint_wide", Off: m.Off, Mark: m, NewVal: nv,
-			What: fmt.Sprintf("compact integer %s (a %d-bit field) = %d replaced by %d", m.Path, m.MaxBits, m.Val, nv)}
+			What: fmt.Sprintf("compact integer %s (a %d-bit field) = %d replaced by %d", m.Path, m.MaxBits, m.Val, nv)}, true
 	case "append":
 		n := int(mu.Val%4) + 1
 		junk := make([]byte, n)
 		for i := range junk {
 			junk[i] = byte(mu.Sel >> (8 * uint(i)))
 		}
-		return append(append([]byte{}, enc...), junk...), c13Applied{Kind: "append", Off: len(enc), What: fmt.Sprintf("%d trailing bytes %x", n, junk)}
+		return append(append([]byte{}, enc...), junk...), c13Applied{Kind: "append", Off: len(enc), What: fmt.Sprintf("%d trailing bytes %x", n, junk)}, true
 	case "bits":
 		bs := c13Marks(marks, func(m *typegen.Mark) bool { return m.Kind == typegen.MarkBits && uint64(8*m.Len) > m.Val })
 		if len(bs) == 0 {
@@ -233,7 +257,7 @@ func c13Mutate(in c13Input, cdc *cdcCodec, enc []byte, marks []typegen.Mark, pre
 		out := append([]byte{}, enc...)
 		out[m.Off+bit/8] |= 1 << uint(bit%8)
 		return out, c13Applied{Kind: "bits", Off: m.Off + bit/8, Mark: m, NewVal: uint64(bit),
-			What: fmt.Sprintf("bitfield %s has %d cores: unused bit %d set", m.Path, m.Val, bit)}
+			What: fmt.Sprintf("bitfield %s has %d cores: unused bit %d set", m.Path, m.Val, bit)}, true
 	case "keydup":
 		var pairs [][2]*typegen.Mark
 		var prev *typegen.Mark
@@ -254,11 +278,11 @@ func c13Mutate(in c13Input, cdc *cdcCodec, enc []byte, marks []typegen.Mark, pre
 		out := append([]byte{}, enc...)
 		if mu.Val%2 == 0 {
 			copy(out[p[1].Off:p[1].Off+p[1].Len], enc[p[0].Off:p[0].Off+p[0].Len]) // duplicate key
-			return out, c13Applied{Kind: "keydup", Off: p[1].Off, Mark: p[1], What: "dictionary key " + p[1].Path + " overwritten with the preceding key (duplicate)"}
+			return out, c13Applied{Kind: "keydup", Off: p[1].Off, Mark: p[1], What: "dictionary key " + p[1].Path + " overwritten with the preceding key (duplicate)"}, true
 		}
 		copy(out[p[1].Off:p[1].Off+p[1].Len], enc[p[0].Off:p[0].Off+p[0].Len]) // swap keys: order violated
 		copy(out[p[0].Off:p[0].Off+p[0].Len], enc[p[1].Off:p[1].Off+p[1].Len])
-		return out, c13Applied{Kind: "keyswap", Off: p[0].Off, Mark: p[0], What: "dictionary keys " + p[0].Path + " and " + p[1].Path + " exchanged (descending order)"}
+		return out, c13Applied{Kind: "keyswap", Off: p[0].Off, Mark: p[0], What: "dictionary keys " + p[0].Path + " and " + p[1].Path + " exchanged (descending order)"}, true
 	case "frame_grow":
 		fs := c13Marks(marks, func(m *typegen.Mark) bool { return m.Kind == typegen.MarkFrame })
 		if len(fs) == 0 {
@@ -271,9 +295,13 @@ func c13Mutate(in c13Input, cdc *cdcCodec, enc []byte, marks []typegen.Mark, pre
 		for i := 0; i < n; i++ {
 			out = append(out, byte(mu.Sel>>(8*uint(i))))
 		}
-		return out, c13Applied{Kind: "frame_grow", Off: len(enc), Mark: m, What: fmt.Sprintf("frame length +%d with %d bytes appended to the payload", n, n)}
+		return out, c13Applied{Kind: "frame_grow", Off: len(enc), Mark: m, What: fmt.Sprintf("frame length +%d with %d bytes appended to the payload", n, n)}, true
 	}
-	return flip("flip")
+	if mu.Kind == "flip" {
+		s, ap := flip("flip")
+		return s, ap, true
+	}
+	return nil, c13Applied{}, false
 }
 
 func c13Parent(path string) string {
